@@ -231,3 +231,392 @@ def check_C10(run):
 
 
 CHECKS = {"C10": check_C10}
+
+
+# ====================================================================== chess core: C01 C02 C04 C08
+import gen as G  # noqa: E402
+
+
+def pool_for(run):
+    if run.tier == "thorough":
+        return G.build_pool(run, 1500, 120, 1500, "core")
+    return G.build_pool(run, 70, 70, 60, "core")
+
+
+def mv_sorted(s):
+    if not s:
+        return []
+    return sorted(tuple(int(x) for x in m.split("-")) for m in s.split(","))
+
+
+def mv_list(s):
+    if not s:
+        return []
+    return [tuple(int(x) for x in m.split("-")) for m in s.split(",")]
+
+
+def classify_position(fen, d):
+    cls = []
+    if d.get("chk") == "1":
+        cls.append("check")
+    parts = fen.split(" ")
+    if parts[3] != "-":
+        cls.append("ep-state")
+    if parts[2] != "-":
+        cls.append("castling-rights")
+    return cls
+
+
+def check_C01(run):
+    P = pool_for(run)
+    pool = P["pool"]
+    run.cov["rule"] = ("positions of D: legal play-outs (biased to captures, castling, promotions, en passant, with null moves) from "
+                       "the start position, every FEN of the test-suite and benchmark, Chess960/double-Chess960 starts (KQkq and "
+                       "file-letter castling), pattern templates (pins per ray, checks, double checks, en passant incl. rank "
+                       "pins, Chess960 castling incl. pinned rook, promotions), all filtered by the executable in_D; compared as "
+                       "move SETS with the 8x8 rules specification; non-trivial = at least one of check/pin-template/ep/castling/"
+                       "promotion applies; distinct = distinct FEN")
+    reqs = [f"gen\t{e['fen']}" for e in pool]
+    impl, _ = vlib.run_impl_par(reqs)
+    model = vlib.run_model_par(reqs)
+    nv = 0
+    for e, a, b in zip(pool, impl, model):
+        fen = e["fen"]
+        db = kv(b)
+        if b.startswith("ERROR"):
+            continue
+        spec = mv_sorted(db.get("spec", ""))
+        kinds = set(db.get("pieces", ""))
+        cl = classify_position(fen, db)
+        promos = any(m[2] != 6 for m in spec)
+        if promos:
+            cl.append("promotion")
+        castles = False
+        run.note_case(fen, e["cls"], nontrivial=bool(cl) or e["cls"] in ("pin", "check", "ep", "castle960", "promo"))
+        for c in cl:
+            run.cov["classes"]["feature:" + c] = run.cov["classes"].get("feature:" + c, 0) + 1
+        if a.startswith("PANIC") or a.startswith("DIED"):
+            nv += 1
+            run.violation("panic", "move generation panics on a position of D", {"fen": fen, "implementation": a})
+            continue
+        da = kv(a)
+        im = mv_list(da.get("moves", ""))
+        if sorted(im) != spec or len(set(im)) != len(im) or "CALLBACK-MISMATCH" in a:
+            nv += 1
+            missing = sorted(set(spec) - set(im))
+            extra = sorted(set(im) - set(spec))
+            if nv <= 25:
+                run.violation("movegen-vs-rules",
+                              f"generated moves differ from the rules: missing {missing[:6]} extra {extra[:6]} dup {len(im) - len(set(im))}",
+                              {"fen": fen, "class": e["cls"], "implementation_moves": da.get("moves", ""), "rules_moves": db.get("spec", ""),
+                               "missing(from,to,promo relative)": missing, "extra": extra,
+                               "repro": f"printf 'gen\\t{fen}\\n' | .build/cargo/release/rawr_harness /dev/stdout"})
+        elif sorted(im) != mv_sorted(db.get("moves", "")):
+            nv += 1
+            run.violation("model-mismatch", "model and implementation generate different sets although the implementation matches the rules",
+                          {"fen": fen, "implementation": a, "model": b}, found_input=False)
+    run.cov["traces_validated_against_impl"] = len(reqs)
+    for i in (0, len(pool) // 2, len(pool) - 1):
+        run.sample({"fen": pool[i]["fen"], "class": pool[i]["cls"], "implementation": impl[i][:300]})
+    run.cov["explanation"] = ("PARTIAL proof: closed lemmas are listed under 'theorems' (slider exactness C10, shift/ray characterisations); "
+                              "the full refinement movegen_exact (generator = rules on all of D) is stated in coq/props/C01.v but not yet proved; "
+                              "until then 'equals the rules' rests on this differential against the executable specification "
+                              "spec/Rules.v (extracted), which is a test, not a proof")
+
+
+def check_C08(run):
+    P = pool_for(run)
+    pool = P["pool"]
+    rng = run.rng
+    run.cov["rule"] = ("same positions as C01; per position: count_moves vs number generated, capture list vs filter of the generated "
+                       "list in order, is_capture vs the rules per move; on a sample: five attack queries on all 64 squares x both "
+                       "sides and random square sets vs the rules' attack relation; perft(1..3) vs leaves of the rules' tree")
+    reqs = [f"gen\t{e['fen']}" for e in pool]
+    sub = [e for e in pool if rng.random() < (0.5 if run.tier == "thorough" else 0.25)]
+    masks = [rng.getrandbits(64) & rng.getrandbits(64) if rng.random() < 0.7 else (1 << rng.randrange(64)) for _ in sub]
+    att = [f"att\t{e['fen']}\t{m}" for e, m in zip(sub, masks)]
+    satt = [f"specatt\t{e['fen']}" for e in sub]
+    psub = [e for e in pool if rng.random() < (0.08 if run.tier == "thorough" else 0.05)]
+    pd = [(e, d) for e in psub for d in ((1, 2, 3) if run.tier == "quick" else (1, 2, 3))]
+    perft = [f"perft\t{e['fen']}\t{d}" for e, d in pd]
+    leaves = [f"leaves\t{e['fen']}\t{d}" for e, d in pd]
+    impl, _ = vlib.run_impl_par(reqs + att + perft)
+    model = vlib.run_model_par(reqs + satt + leaves)
+    n = len(reqs)
+    nv = 0
+    for e, a, b in zip(pool, impl[:n], model[:n]):
+        fen = e["fen"]
+        if b.startswith("ERROR"):
+            continue
+        if a.startswith("PANIC") or a.startswith("DIED"):
+            run.violation("panic", "panic in counting / capture generation", {"fen": fen, "implementation": a})
+            continue
+        da, db = kv(a), kv(b)
+        im = mv_list(da.get("moves", ""))
+        caps = mv_list(da.get("caps", ""))
+        flags = da.get("iscap", "")
+        speccaps = set(mv_sorted(db.get("speccaps", "")))
+        run.note_case(fen, e["cls"], nontrivial=len(speccaps) > 0)
+        bad = None
+        if int(da["count"]) != len(im):
+            bad = f"count_moves = {da['count']} but {len(im)} moves are generated"
+        elif caps != [m for m, fl in zip(im, flags) if fl == "1"]:
+            bad = "legal_captures is not the generated list filtered by is_capture, in order"
+        elif set(m for m, fl in zip(im, flags) if fl == "1") != speccaps and sorted(im) == mv_sorted(db.get("spec", "")):
+            bad = f"is_capture disagrees with the rules: {sorted(set(m for m, fl in zip(im, flags) if fl == '1') ^ speccaps)[:6]}"
+        if bad:
+            nv += 1
+            if nv <= 25:
+                run.violation("count-captures", bad, {"fen": fen, "implementation": a, "rules_captures": db.get("speccaps", ""),
+                                                      "repro": f"printf 'gen\\t{fen}\\n' | .build/cargo/release/rawr_harness /dev/stdout"})
+    for e, m, a, b in zip(sub, masks, impl[n:n + len(att)], model[n:n + len(att)]):
+        fen = e["fen"]
+        run.note_case(("att", fen, m), "attack-queries")
+        if a.startswith("PANIC") or a.startswith("DIED"):
+            run.violation("panic", "panic in an attack query", {"fen": fen, "mask": m, "implementation": a})
+            continue
+        da, db = kv(a), kv(b)
+        su, st = int(db["sq_us"]), int(db["sq_them"])
+        board = G.parse_board(fen)
+        black = fen.split(" ")[1] == "b"
+        ksq = {c: (s ^ 56 if black else s) for s, c in board.items() if c in "Kk"}
+        us_k, them_k = (ksq["k"], ksq["K"]) if black else (ksq["K"], ksq["k"])
+        want = {"sq_us": su, "sq_them": st, "bb_us": int((su & m) != 0), "bb_them": int((st & m) != 0),
+                "ga_us": su & m, "ga_them": st & m, "chk": (st >> us_k) & 1, "chkthem": (su >> them_k) & 1}
+        got = {k: int(da[k]) for k in want}
+        if got != want:
+            nv += 1
+            diff = {k: (got[k], want[k]) for k in want if got[k] != want[k]}
+            if nv <= 25:
+                run.violation("attack-query", f"attack query differs from the rules (got, rules): {diff}",
+                              {"fen": fen, "mask": m, "implementation": a, "rules": b,
+                               "repro": f"printf 'att\\t{fen}\\t{m}\\n' | .build/cargo/release/rawr_harness /dev/stdout"})
+    off = n + len(att)
+    for (e, d), a, b in zip(pd, impl[off:], model[off:]):
+        run.note_case(("perft", e["fen"], d), f"perft-{d}")
+        if a != b:
+            nv += 1
+            run.violation("perft", f"perft({d}) = {a}, the rules' tree has {b} leaves",
+                          {"fen": e["fen"], "depth": d, "implementation": a, "rules_leaves": b,
+                           "repro": f"printf 'perft\\t{e['fen']}\\t{d}\\n' | .build/cargo/release/rawr_harness /dev/stdout"})
+    run.cov["traces_validated_against_impl"] = len(reqs) + len(att) + len(perft)
+    run.sample({"request": att[0] if att else "", "implementation": impl[n] if att else ""})
+    run.sample({"request": perft[0] if perft else "", "implementation": impl[off] if perft else "", "rules_leaves": model[off] if perft else ""})
+    run.cov["explanation"] = ("PARTIAL proof (closed lemmas under 'theorems'); count/captures/is_capture/attack queries/perft of the real "
+                              "library compared with the rules specification on generated positions of D")
+
+
+def make_requests(run, pool, frac):
+    rng = run.rng
+    chosen = [e for e in pool if rng.random() < frac]
+    gens = vlib.run_model_par([f"gen\t{e['fen']}" for e in chosen])
+    reqs, meta = [], []
+    for e, g in zip(chosen, gens):
+        d = kv(g)
+        ms = d.get("moves", "")
+        for m in (ms.split(",") if ms else []):
+            reqs.append(f"make\t{e['fen']}\t{m}")
+            meta.append((e, m))
+        if d.get("chk") == "0":
+            reqs.append(f"make\t{e['fen']}\tnull")
+            meta.append((e, "null"))
+    return reqs, meta
+
+
+def move_class(fen, m, dump_after):
+    if m == "null":
+        return "null"
+    f, t, p = (int(x) for x in m.split("-"))
+    board = G.parse_board(fen)
+    black = fen.split(" ")[1] == "b"
+    rel = lambda s: s ^ 56 if black else s
+    pc = board.get(rel(f), "?")
+    tg = board.get(rel(t))
+    cls = []
+    if pc in "Kk" and tg is not None and tg.isupper() == pc.isupper():
+        return "castle-k" if t > f else "castle-q"
+    if p != 6:
+        cls.append("promo")
+    if tg is not None:
+        cls.append("capture-" + tg.lower())
+    if pc in "Pp" and tg is None and (f % 8) != (t % 8):
+        cls.append("ep")
+    if pc in "Pp" and abs(t - f) == 16:
+        cls.append("double")
+    if not cls:
+        cls.append("quiet-" + pc.lower())
+    return "+".join(cls)
+
+
+def check_C02(run):
+    P = pool_for(run)
+    pool, games = P["pool"], P["games"]
+    run.cov["rule"] = ("every legal move (and the null move when not in check) of a sample of the C01 position pool: all public fields "
+                       "after make-move, with and without incremental key, against the model; the model's result abstracted to the "
+                       "8x8 board against Rules.apply; result must be structurally valid and in D; plus whole play-outs incl. null "
+                       "moves replayed move by move; class = move kind; non-trivial = not a quiet non-pawn move")
+    reqs, meta = make_requests(run, pool, 0.5 if run.tier == "thorough" else 0.12)
+    plays = [f"play\t{g['start']}\t{g['moves']}" for g in games]
+    impl, _ = vlib.run_impl_par(reqs + plays)
+    model = vlib.run_model_par(reqs + plays)
+    nv = 0
+    todo = []
+    for i, ((e, m), a, b) in enumerate(zip(meta, impl, model)):
+        cls = move_class(e["fen"], m, b)
+        run.note_case((e["fen"], m), cls, nontrivial=not cls.startswith("quiet-") or cls == "quiet-p")
+        db = kv(b)
+        spec = b.split(" spec=")[1].split(" ")[0] if " spec=" in b else ""
+        mabs = b.split(" abs=")[1].split(" ")[0] if " abs=" in b else ""
+        if a.startswith("PANIC") or a.startswith("DIED"):
+            nv += 1
+            run.violation("panic", "make-move panics on a legal move", {"fen": e["fen"], "move": m, "implementation": a})
+            continue
+        a_core = a.split(" spec=")[0]
+        b_core = b.split(" spec=")[0]
+        if a_core != b_core:
+            todo.append((i, e, m, a, b, spec))
+        elif spec != mabs or db.get("valid") != "1" or db.get("inD") != "1":
+            nv += 1
+            if nv <= 25:
+                run.violation("makemove-vs-rules", "successor differs from the one the rules prescribe (or is not a valid position of D)",
+                              {"fen": e["fen"], "move(from-to-promo, mover-relative)": m, "implementation": a, "rules_successor": spec,
+                               "implementation_successor": mabs,
+                               "repro": f"printf 'make\\t{e['fen']}\\t{m}\\n' | .build/cargo/release/rawr_harness /dev/stdout"})
+    if todo:
+        # implementation and model differ: abstract the implementation's own result and ask the rules
+        outs = vlib.run_model_par(["absdump\t" + a.split(" pred=")[0].split(" calc=")[0] for _, _, _, a, _, _ in todo])
+        for (i, e, m, a, b, spec), o in zip(todo, outs):
+            iabs = o.split("abs=")[1].split(" ")[0] if "abs=" in o else o
+            ok = (iabs == spec) and " valid=1" in o and " valid=1" in a
+            nv += 1
+            if nv <= 25:
+                if not ok:
+                    run.violation("makemove-vs-rules", "successor differs from the one the rules prescribe",
+                                  {"fen": e["fen"], "move(from-to-promo, mover-relative)": m, "implementation": a,
+                                   "rules_successor": spec, "implementation_successor": iabs,
+                                   "repro": f"printf 'make\\t{e['fen']}\\t{m}\\n' | .build/cargo/release/rawr_harness /dev/stdout"})
+                else:
+                    run.violation("model-mismatch", "model and implementation differ in a field the rules do not constrain",
+                                  {"fen": e["fen"], "move": m, "implementation": a, "model": b}, found_input=False)
+    off = len(reqs)
+    for g, a, b in zip(games, impl[off:], model[off:]):
+        run.note_case(("play", g["start"], g["moves"]), "sequence-" + g["cls"])
+        if a != b:
+            nv += 1
+            # shrink: shortest prefix on which the two sides differ
+            toks = g["moves"].split(" ")
+            lo = None
+            for k in range(1, len(toks) + 1):
+                rq = [f"play\t{g['start']}\t{' '.join(toks[:k])}"]
+                ia, _ = vlib.run_impl(rq)
+                mb = vlib.run_model(rq)
+                if ia != mb:
+                    lo = (k, ia[0], mb[0])
+                    break
+            run.violation("sequence", "a sequence of legal and null moves ends in different positions (implementation vs model)",
+                          {"start": g["start"], "moves": " ".join(toks[:lo[0]]) if lo else g["moves"],
+                           "implementation": lo[1] if lo else a, "model": lo[2] if lo else b})
+    run.cov["traces_validated_against_impl"] = len(reqs) + len(plays)
+    run.sample({"request": reqs[0], "implementation": impl[0][:400]})
+    run.sample({"request": plays[0][:300], "implementation": impl[off][:300]})
+    run.cov["explanation"] = ("PARTIAL proof (closed lemmas under 'theorems'); the refinement make-move = Rules.apply is checked by running "
+                              "model, implementation and specification on every legal move of sampled positions and along play-outs")
+
+
+KEYS_TURN = None
+
+
+def check_C04(run):
+    P = pool_for(run)
+    pool, games = P["pool"], P["games"]
+    run.cov["rule"] = ("every legal move and null move of sampled positions: predicted key = key after the move = key recomputed from "
+                       "scratch; whole play-outs: incremental key = recomputed key at every step; all positions met: equal "
+                       "(placement, turn, rights, ep file) <=> equal key; class = move kind")
+    reqs, meta = make_requests(run, pool, 0.5 if run.tier == "thorough" else 0.12)
+    plays = [f"play\t{g['start']}\t{g['moves']}" for g in games]
+    impl, _ = vlib.run_impl_par(reqs + plays)
+    model = vlib.run_model_par(reqs + plays)
+    nv = 0
+    feats = {}      # key -> feature tuple
+    byfeat = {}
+
+    def note_key(spec_abs, key, where):
+        nonlocal nv
+        parts = spec_abs.split("/")
+        if len(parts) < 6:
+            return
+        rights = parts[2]
+        ep = parts[3].split(",")[0] if parts[3] != "-" else "-"
+        ft = (parts[0], parts[1], rights, ep)
+        if key in feats and feats[key] != ft:
+            # the four castle files are part of `rights` here; positions differing only in WHICH rook a right refers to
+            # share a key by design (rights are keyed per colour and wing)
+            def flags(r):
+                return tuple(c != "-" for c in r)
+            a, b = feats[key], ft
+            if (a[0], a[1], a[3]) != (b[0], b[1], b[3]) or flags(a[2]) != flags(b[2]):
+                nv += 1
+                run.violation("key-collision", "two different positions met in this run share a key",
+                              {"key": key, "position_1": feats[key], "position_2": ft, "where": where})
+        feats.setdefault(key, ft)
+        if ft in byfeat and byfeat[ft] != key:
+            nv += 1
+            run.violation("key-not-function", "the same (placement, turn, rights, ep file) was given two different keys",
+                          {"position": ft, "key_1": byfeat[ft], "key_2": key, "where": where})
+        byfeat.setdefault(ft, key)
+
+    for (e, m), a, b in zip(meta, impl, model):
+        cls = move_class(e["fen"], m, b)
+        run.note_case((e["fen"], m), cls, nontrivial=not cls.startswith("quiet-"))
+        if a.startswith("PANIC") or a.startswith("DIED"):
+            nv += 1
+            run.violation("panic", "make-move panics", {"fen": e["fen"], "move": m, "implementation": a})
+            continue
+        da = kv(a)
+        db = kv(b)
+        h, calc = da["hash"], da["calc"]
+        pred = da.get("pred", h)
+        if not (h == calc == pred):
+            nv += 1
+            if nv <= 25:
+                run.violation("incremental-key", f"after the move: incremental {h}, predicted {pred}, recomputed {calc}",
+                              {"fen": e["fen"], "move": m, "implementation": a,
+                               "repro": f"printf 'make\\t{e['fen']}\\t{m}\\n' | .build/cargo/release/rawr_harness /dev/stdout"})
+            continue
+        if db.get("hash") != h:
+            nv += 1
+            if nv <= 25:
+                run.violation("model-mismatch", "key differs from the model's although it is self-consistent",
+                              {"fen": e["fen"], "move": m, "implementation": a, "model": b}, found_input=False)
+        if " abs=" in b and da.get("us") == db.get("us"):
+            note_key(b.split(" abs=")[1].split(" ")[0], h, f"{e['fen']} after {m}")
+    off = len(reqs)
+    for g, a, b in zip(games, impl[off:], model[off:]):
+        run.note_case(("play", g["start"], g["moves"]), "sequence-" + g["cls"])
+        da = kv(a)
+        if a.startswith("PANIC") or a.startswith("DIED") or da.get("hash") != da.get("calc"):
+            nv += 1
+            toks = g["moves"].split(" ")
+            lo = None
+            for k in range(1, len(toks) + 1):
+                ia, _ = vlib.run_impl([f"play\t{g['start']}\t{' '.join(toks[:k])}"])
+                dk = kv(ia[0])
+                if ia[0].startswith("PANIC") or dk.get("hash") != dk.get("calc"):
+                    lo = (k, ia[0])
+                    break
+            run.violation("incremental-key", "after a sequence of moves the maintained key differs from the recomputed one",
+                          {"start": g["start"], "moves": " ".join(toks[:lo[0]]) if lo else g["moves"], "implementation": lo[1] if lo else a})
+        elif a != b:
+            nv += 1
+            run.violation("model-mismatch", "play-out ends differently in model and implementation", {"start": g["start"], "moves": g["moves"],
+                                                                                                     "implementation": a, "model": b}, found_input=False)
+    run.cov["distinct_keys_seen"] = len(feats)
+    run.cov["traces_validated_against_impl"] = len(reqs) + len(plays)
+    run.sample({"request": reqs[0], "implementation": impl[0][:400]})
+    run.cov["explanation"] = ("key_min_distance (two feature sets differing in 1..4 features have different keys) is proved by a vm_compute "
+                              "sweep over the regenerated key tables; incremental = recomputed is PARTIAL (checked by correspondence on "
+                              "every legal move of sampled positions and along play-outs); the 'differing positions had different keys' "
+                              "clause is empirical by its own wording and is measured here over all positions met")
+
+
+CHECKS.update({"C01": check_C01, "C02": check_C02, "C04": check_C04, "C08": check_C08})
